@@ -484,7 +484,7 @@ def grid_search(model_cls: Type[Model], parameters: Union[ParameterList, Dict[st
     # Calculate best result
     is_min = mode % 2 == 0  # Note: May not work in future if more search modes are added that aren't min-max searches
     index = -1
-    target_score = maxsize if is_min else -maxsize
+    target_score = float('inf') if is_min else float('-inf')
     for i, result in enumerate(results):
         result['score'] = _score_model_for_search(result['records'], mode)
         if (is_min and result['score'] < target_score) or (not is_min and result['score'] > target_score):
